@@ -220,6 +220,19 @@ func (e *Environment) RemoveScope() error {
 	return fmt.Errorf("attempt to RemoveScope when no scopes are present")
 }
 
+// ScopeDepth returns the number of scopes which are currently open.
+func (e *Environment) ScopeDepth() int {
+	return len(e.local)
+}
+
+// TruncateScopes removes any scopes beyond the given depth, leaving
+// at most that many open.
+func (e *Environment) TruncateScopes(depth int) {
+	if depth >= 0 && depth < len(e.local) {
+		e.local = e.local[:depth]
+	}
+}
+
 // SetLocal stores the value of a variable, by name, but only for the local scope.
 func (e *Environment) SetLocal(name string, val object.Object) object.Object {
 
